@@ -879,6 +879,20 @@ class LibMixin:
             cur = st.heap_arr(fs.fid, fs.t.sort())
             old = st.old.heap_arr(fs.fid, fs.t.sort())
             return Sc(cur == old, BOOL)
+        if name == 'heap_unchanged':
+            # every heap field (including ghost logs) has its pre-state value, for every pre-existing object
+            x = z3.Const('x!hu', Ref)
+            facts = []
+            for fid, cur in st.heap.items():
+                if fid.startswith('$'):
+                    continue
+                old = st.old.heap.get(fid) if st.old is not None else None
+                if old is None:
+                    old = self.ctx.heap0.get(fid)
+                if old is None or cur.eq(old):
+                    continue
+                facts.append(z3.ForAll([x], z3.Implies(z3.Select(self.ctx.alive0, x), z3.Select(cur, x) == z3.Select(old, x))))
+            return Sc(z3.And(*facts) if facts else z3.BoolVal(True), BOOL)
         if name == 'unchanged':
             # unchanged(x.f) : value equals old value
             cur = self.ev1(a[0], st, frame)
